@@ -257,3 +257,47 @@ def c10(ctx):
                 "connection task ended; MC_Exchange checks NoLeak at every step of the multi-step upload incl. "
                 "disk-write failure")
     ctx.assumptions += ["disk-write failure is explored in the model only (RLIMIT_FSIZE injection is not built)"]
+
+
+# ---------------------------------------------------------------------------------- C12 C13
+reg("tokens-enum", "Trace_Tokens")
+reg("server-stress", "Trace_Server")
+
+C13_WORDS = ("stop signal", "StopTimeout", "after revocation", "after the stop signal", "in-flight", "StopOrder",
+             "accept loop returned", "AccRevoked", "listener")
+
+
+def _c13_reason(why):
+    t = str(why)
+    return any(w in t for w in C13_WORDS)
+
+
+@prop("C12")
+def c12(ctx):
+    ctx.mc("Server", "MC_Server" if ctx.quick else "MC_Server3", workers=12, timeout=3000)
+    tk = ctx.drive("tokens-enum", depth=6 if ctx.quick else 8, timeout=3000)
+    ctx.validate("Trace_Tokens", tk, "tokens-enum", shards=8, timeout=3000)
+    tr = ctx.drive("server-stress", runs=300 if ctx.quick else 3000, timeout=3000)
+    ctx.validate("Trace_Server", tr, "server-stress", shards=4 if ctx.quick else 12, keep=lambda w: not _c13_reason(w))
+    ctx.rule = ("real server runs with max_conns in 1..4 and 2..3x as many clients, random schedules of connect / send "
+                "{ok, 404, 503, panic, drop, 300 kB response, malformed, partial head, partial upload} / gate open / "
+                "abrupt close, half of the runs followed by the refill check (max gated connections must all enter "
+                "their handlers); every hook event (token take/return, accept-loop phases, connection begin/end) is one "
+                "action, Limit and Conservation are evaluated after every event; TokenSet API sequences exhaustively "
+                "to depth 6 (quick) / 8 (thorough) for sizes 1..3")
+    ctx.assumptions += ["accept failure under a descriptor limit (EMFILE) is covered by the model (AccFail) only"]
+
+
+@prop("C13")
+def c13(ctx):
+    ctx.mc("Server", "MC_Server" if ctx.quick else "MC_Server3", workers=12, timeout=3000)
+    ctx.mc("Server", "MC_Server_pinned", workers=4, expect_error="Temporal property Prompt was violated",
+           label="counterexample on the pre-repair design (token wait not raced against the permit)")
+    tr = ctx.drive("server-stress", runs=300 if ctx.quick else 3000, timeout=3000)
+    ctx.validate("Trace_Server", tr, "server-stress", shards=4 if ctx.quick else 12, keep=_c13_reason)
+    ctx.rule = ("the same real server runs as C12, each ending with revocation at whatever phase the random history "
+                "has reached (idle keep-alive, partial head, handler running, upload in progress, response being "
+                "written to a client that is not reading, all slots occupied); observed: stop signal within 5 s and "
+                "only after the listener was released (hook order), late connect refused, at most one further request "
+                "per connection after revocation, handlers that were running at revocation answer; the liveness "
+                "property revoked ~> stopped is model-checked under weak fairness of the server's actions only")
